@@ -706,6 +706,7 @@ def part_dq(chk, efs, run):
             meta.append((ef, l))
     out = run(lines, shards=4)
     bad, classes = [], set()
+    wider = 0
     F = ("crypt-filter-defaults", "cfm-none-explicit", "sig-contents-without-type")
     for (ef, l), o in zip(meta, out):
         f = o.split()
@@ -725,8 +726,14 @@ def part_dq(chk, efs, run):
         if f[0] != l.get("method"):
             bad.append((describe(ef), leaf_key(l), l["kind"], "ISO rule on the written dictionary: method " + f[0],
                         "reference encryptor used method " + str(l.get("method"))))
-        elif (f[1] == "1") != in_sig:
+        elif f[1] == "0" and in_sig:
+            # a recorded finding on a leaf OUTSIDE the class would contradict the method-selection theorems
             bad.append((describe(ef), leaf_key(l), l["kind"], "dq_in_finding_class = " + f[1], "recorded signature of the leaf: %r" % sig))
+        elif f[1] == "1" and not in_sig:
+            # the class is an executable over-approximation of the findings: a leaf inside it on which the defect has no
+            # observable effect (e.g. a /Crypt filter without /Name in a file whose /StmF is /Identity anyway) carries no
+            # signature; counted, not an error (the theorems claim nothing inside the class)
+            wider += 1
     # the method --show-encryption / QPDF::isEncrypted report for attachments against Table 20's /EFF rule (V 4 and 5)
     seen = set()
     for (ef, l), o in zip(meta, out):
